@@ -22,7 +22,7 @@
    model's signed entry lists (arel_add_sound) — it is NOT linked to C17's gmap model. *)
 From Coq Require Import ZArith QArith Qcanon List Bool PArith.
 Import ListNotations.
-From PV Require Import Model.C14_simplify Proofs.C14_simplify Proofs.C14_compose Proofs.C15_square Proofs.C14_example.
+From PV Require Import Model.C14_simplify Proofs.C14_simplify Proofs.C14_compose Proofs.C15_square Proofs.C14_example Proofs.C14_dexpr.
 Open Scope Qc_scope.
 
 (* ca.substitute followed by CasADi's on-the-fly re-simplification (mk_un / mk_bin, 30 rewrite
@@ -99,8 +99,9 @@ Print Assumptions C14_pass_eliminable.
    is in the executable model and in the correspondence.  Pointwise the pass ADDS the differentiated
    definitions der(x) = d/dt(value) (`snd (elim2_defs ..)`): they are not consequences of the
    algebraic equations at one time instant, so the equivalence is relative to them.
-   Partial: not proved that `dexpr` is the time derivative of the value along a trajectory (a
-   dual-number semantics of the expression type), nor that this pass composes in C14_preserves
+   `dexpr` is the time derivative of the value (C14_dexpr_is_derivative, defs = []).
+   Partial: the added definitions are not yet restated as consequences for trajectories, the
+   look-through of eliminated variables is not covered by that lemma, and this pass is not composed in C14_preserves
    (there `no_elim_state` is a hypothesis). *)
 Theorem C14_pass_eliminable_states_partial (r : env) (dermap : list (name * name)) (mt : list name) (m : model) :
   acyclic (fst (elim2_defs dermap mt m)) -> failed m = false ->
@@ -108,6 +109,17 @@ Theorem C14_pass_eliminable_states_partial (r : env) (dermap : list (name * name
   (sat r m /\ facts r (snd (elim2_defs dermap mt m)) <-> sat r (eliminate_vars2 dermap mt m)).
 Proof. exact (sound_eliminate_vars2 r dermap mt m). Qed.
 Print Assumptions C14_pass_eliminable_states_partial.
+
+(* get_derivative's chain rule IS the time derivative: `eval_d r dr e` is the derivative of e along a
+   trajectory with values r and time derivatives dr (dual numbers: constant, symbol, negation,
+   doubling, square, sum, difference, product rules — exactly dexpr's constructors); with the
+   derivative of a differentiated name x read from its symbol der(x) (dm x = der(x)) and 0 for every
+   other symbol, dexpr's result evaluates to that derivative.  (No eliminated variable looked
+   through: defs = []; the look-through case unfolds the recorded definition first.) *)
+Theorem C14_dexpr_is_derivative (fuel : nat) (dm : list (name * name)) (r : env) (e : expr) :
+  eval r (dexpr (S fuel) dm [] e) = eval_d r (dr_of r dm) e.
+Proof. exact (dexpr_is_derivative fuel dm r e). Qed.
+Print Assumptions C14_dexpr_is_derivative.
 
 (* replace_constant_values incl. constants whose values are expressions in other constants *)
 Theorem C14_pass_replace_constant_values_partial (r : env) (m : model) :
